@@ -2,14 +2,15 @@
    are mapped to OCaml's; nat, N, positive, Z remain Coq's inductives.  No Extract Constant. *)
 Require Extraction.
 Require Import ExtrOcamlBasic.
-Require Import SV.Base.BT SV.Base.Res SV.Simp.Core SV.Layout.Ty SV.Layout.Value SV.Lang.Ast SV.Comp.Compile SV.Lang.Sem SV.Lang.WT SV.Jets.JetSem SV.Gen.JetTable SV.Jets.JetModel SV.Text.U256 SV.Text.Literal SV.Text.Span SV.Wit.Consistent SV.Text.TyPrint SV.Text.ValPrint SV.Text.ModPrint SV.Text.ValParse SV.Text.Peg SV.Gen.Grammar SV.Front.PTree SV.Front.Analyze SV.Gen.Aliases.
+Require Import SV.Base.BT SV.Base.Res SV.Simp.Core SV.Layout.Ty SV.Layout.Value SV.Lang.Ast SV.Comp.Compile SV.Lang.Sem SV.Lang.WT SV.Jets.JetSem SV.Gen.JetTable SV.Jets.JetModel SV.Text.U256 SV.Text.Literal SV.Text.Span SV.Wit.Consistent SV.Text.TyPrint SV.Text.ValPrint SV.Text.ModPrint SV.Text.ValParse SV.Text.Peg SV.Gen.Grammar SV.Front.PTree SV.Front.Analyze SV.Gen.Aliases SV.Text.ProgPrint.
 Extraction Language OCaml.
 Extraction "model.ml"
   struct_ty structural reconstruct type_of value_wf cast_ok ty_eqb sty_eqb sval_eqb vty
   compile_program eval sem_program jet_rows jet_by_name wt_program jet_sig
   parse_decimal parse_binary parse_hex_uint parse_hex_bytes uint_display u256_from_str u256_display
-  render to_slice mkspan mkpos span_of_offsets lines line_col_position line_col_index tracked_text valid_utf8 is_boundary span_new position_new
+  SV.Text.Span.render to_slice mkspan mkpos span_of_offsets lines line_col_position line_col_index tracked_text valid_utf8 is_boundary span_new position_new
   wit_consistent args_consistent
   ty_print_machine val_print_machine mod_print tparse_top vparse_top
   parse grammar
-  analyze_program builtin_aliases.
+  analyze_program builtin_aliases
+  print_program_machine print_program prog_wf parse_token_list tokens_program erase_program.
